@@ -496,6 +496,8 @@ pub fn get_best_move_until_stop(
         // Built first and printed as one line, so that an answer of the stdin loop cannot land inside it
         let mut pv_line = String::from("info pv ");
         for _ in 0..depth {
+            #[cfg(daniel729_chess_verif)]
+            crate::verif_hooks::schedule_point("pv_walk");
             if let Some(entry) = table.get(&hash) {
                 if let Some(pv) = entry.pv {
                     game_clone.push(pv);
